@@ -75,6 +75,15 @@ CLAIMED = {
         "DESIGN.md §4 C13",
         "exploration",
     ),
+    "C03": (
+        "Hypothesis-generated multi-connection DDL/USE/DML histories vs catalogue model with per-connection context; engine-level row scan",
+        "Histories over 1-3 connections, 2 databases x 2 schemas x 2 table names and three qualification levels are generated; after every "
+        "step the four context observers of every connection are compared with a catalogue model and an engine-level scan checks that "
+        "every tagged row sits in the table the model resolved it to. Exploration.",
+        "The schema after USE DATABASE is taken from conn.schema (agreement oracle). DROP DATABASE excluded (unsupported, listed under C04).",
+        "DESIGN.md §4 C03",
+        "exploration",
+    ),
 }
 
 NOT_YET = {}
